@@ -608,7 +608,7 @@ def contracts():
 # ======================================================================================
 # Dynamic.__set__ — nothing happens to a value generator before the assignment is accepted
 # ======================================================================================
-def dynamic_set_contract():
+def dynamic_set_contract(class_level=False):
     """`Dynamic.__set__(obj, val)`: the generator bookkeeping (`_initialize_generator`, which resets the
     generator's cache) runs only AFTER `Parameter.__set__` accepted the value — a rejected assignment of a
     callable that is already the dynamic value of another parameter must not wipe its state."""
@@ -631,10 +631,22 @@ def dynamic_set_contract():
         I.lib["deco:instance_descriptor"] = lambda I, st, fv, args, kwargs, ctx: None
 
     def setup(I, st):
-        self, T = S.param_obj(I, st, "Dynamic", {}, label="self")
-        obj, val = Sym(I.U.fresh("obj")), Sym(I.U.fresh("val"))
+        self, T = S.param_obj(I, st, "Dynamic", {"name": None}, label="self")
+        val = Sym(I.U.fresh("val"))
+        if class_level:
+            obj, is_ref = Conc(None), z3.BoolVal(False)
+        else:
+            # an instance with an arbitrary table of linked references
+            obj = I.alloc_obj(st, "Parameterized", lazy=True, label="obj")
+            priv = I.alloc_obj(st, "_InstancePrivate", lazy=True, label="private")
+            refs = I.alloc_dict(st, keys=I.U.fresh_seq("linked_names"), vals=z3.Const("linked_refs", z3.ArraySort(vm.V, vm.V)))
+            st.heap[priv.oid].fields["refs"] = refs
+            st.heap[obj.oid].fields["_param__private"] = priv
+            h = st.heap[refs.oid]
+            st.pc.append(vm.ty(T["name"]) == vm.TAG["str"])
+            is_ref = z3.And(z3.Contains(h.keys, z3.Unit(T["name"])), z3.Select(h.vals, T["name"]) == val.t)
         fv = I.bound_method(self, I.src.find_method("Dynamic", "__set__"))
-        return fv, [obj, val], {}, {"val": val.t, "obj": obj.t, "symbols": {}}
+        return fv, [obj, val], {}, {"val": val.t, "is_ref": is_ref, "symbols": {}}
 
     def post(I, info, st, oc):
         order = st.ghost.get("order", [])
@@ -642,14 +654,16 @@ def dynamic_set_contract():
             return [("C02/a rejected assignment touches no generator state (nothing runs before or after the refused set)",
                      z3.BoolVal(order == ["set"] and oc.origin == "Parameter.__set__"))]
         first = order[:1] == ["set"]
+        n = order.count("initialize_generator")
         return [("C02/the value is assigned first, generator bookkeeping follows", z3.BoolVal(first)),
-                ("C02/a callable value is initialised as a generator exactly once, a plain value never",
-                 z3.If(vm.is_callable(info["val"]), z3.BoolVal(order.count("initialize_generator") == 1), z3.BoolVal(order.count("initialize_generator") == 0)))]
-    return FunctionContract("param.parameters:Dynamic.__set__", "C02", setup, post, configure=configure, name="Dynamic.__set__")
+                ("C02/a callable VALUE is initialised as a generator exactly once; a plain value, and a reference recorded as this parameter's link, never",
+                 z3.If(z3.And(vm.is_callable(info["val"]), z3.Not(info["is_ref"])), z3.BoolVal(n == 1), z3.BoolVal(n == 0)))]
+    return FunctionContract("param.parameters:Dynamic.__set__", "C02", setup, post, configure=configure,
+                            name="Dynamic.__set__[%s]" % ("class" if class_level else "instance"))
 
 
 _c02_base4 = contracts
 
 
 def contracts():
-    return _c02_base4() + [dynamic_set_contract()]
+    return _c02_base4() + [dynamic_set_contract(False), dynamic_set_contract(True)]
